@@ -1,5 +1,5 @@
 #!/usr/bin/env python3
-"""Regenerates sections 10.2 ff. of /verif/DESIGN.md from the repository's own data
+"""Regenerates sections 10.2-10.7 of /verif/DESIGN.md from the repository's own data
 (claims, PARTIAL lists, KNOWN_FINDINGS.json, seeded/*/meta.json).  Development aid."""
 import glob
 import importlib
@@ -142,21 +142,42 @@ for d in sorted(glob.glob(os.path.join(ROOT, 'seeded', '*', '*'))):
     m = json.load(open(mp))
     rows.append((m['property'], os.path.basename(d), m))
 EARLY_MISSED = {('C02', 'm1'), ('C02', 'm2')}
-nmiss = sum(1 for p, k, m in rows if 'first_check_run' in m or (p, k) in EARLY_MISSED)
-ncaught_now = sum(1 for p, k, m in rows if (m.get('check_run') or {}).get('caught'))
-out.append(f"\n### 10.4 Seeded changes (independent sub-agents, `seeded/<id>/m<k>/` first round, `r2m<k>/` second, `r3m<k>/` third)\n\n"
+
+
+def caught_now(m):
+    return bool((m.get('check_run') or {}).get('caught'))
+
+
+def missed_on_arrival(p, k, m):
+    # a recorded first run that did not catch it, the two early ones recorded by hand, or not caught yet
+    return 'first_check_run' in m or (p, k) in EARLY_MISSED or not caught_now(m)
+
+
+def round_of(k):
+    mm = re.match(r"r(\d+)m\d+$", k)
+    return int(mm.group(1)) if mm else 1
+
+
+nmiss = sum(1 for p, k, m in rows if missed_on_arrival(p, k, m))
+ncaught_now = sum(1 for p, k, m in rows if caught_now(m))
+ROUNDS = sorted({round_of(k) for p, k, m in rows})
+per_round = {r: [(p, k, m) for p, k, m in rows if round_of(k) == r] for r in ROUNDS}
+out.append(f"\n### 10.4 Seeded changes (independent sub-agents; `seeded/<id>/m<k>/` first round, `r2m<k>/` ... `r5m<k>/` rounds two to five)\n\n"
            "For every property a fresh sub-agent that saw only the property text and its own worktree of /repo produced three changes that "
-           "compile, pass the 2911 tests and break the property, each with a demo; a second and a third round (after the repairs) asked three more per property each, "
+           "compile, pass the 2911 tests and break the property, each with a demo; four further rounds (after the repairs, and after each round of strengthening) asked three more per property each, "
            "different from the earlier ones (the agent was given one-line summaries of those to avoid). Each was re-validated here with `harness/seed_eval.py` "
            "(patch applies to a throw-away worktree, demo passes unchanged / fails changed, suite passes on the changed tree) and the quick check was "
            f"run against it (`VERIF_REPO=<worktree> ./check Cxx`). {len(rows)} changes in total; {len(rows) - nmiss} were caught by the checks as they stood when the change arrived, "
-           f"{nmiss} were missed and led to the strengthening listed below; {ncaught_now} of {len(rows)} are recorded as caught now (meta.json `check_run.caught`).\n\n"
+           f"{nmiss} were missed and led to the strengthening listed below; {ncaught_now} of {len(rows)} are recorded as caught now (meta.json `check_run.caught`). "
+           "Per round (changes / missed on arrival / caught now): "
+           + "; ".join(f"round {r}: {len(per_round[r])} / {sum(1 for p, k, m in per_round[r] if missed_on_arrival(p, k, m))} / {sum(1 for p, k, m in per_round[r] if caught_now(m))}" for r in ROUNDS)
+           + ".\n\n"
            "| seeded change | what it does | caught by (features of the first replay) | check when the change arrived |\n|---|---|---|---|\n")
 for p, k, m in rows:
     fr = (m.get('check_run') or {}).get('first_replay') or {}
-    missed = 'missed, then strengthened' if ('first_check_run' in m or (p, k) in EARLY_MISSED) else 'caught'
-    if not (m.get('check_run') or {}).get('caught'):
-        missed = 'MISSED (still)'
+    missed = 'missed, then strengthened' if missed_on_arrival(p, k, m) else 'caught'
+    if not caught_now(m):
+        missed = 'MISSED (still; strengthening in progress)'
     out.append(f"| {p} {k} | {(m.get('summary') or '')[:170].replace('|', '/')} | `{json.dumps(fr.get('features'))[:110]}` | {missed} |\n")
 out.append("""
 Strengthening done because of missed changes. Round 1: C02 (writes of `add_linear_equality_constraint` through views; deferred
@@ -185,6 +206,30 @@ type-aware and byte-for-byte; `REAL_INTERACTIONS` models), C11 (sparse non-range
 boundary in `as_samples`), C15 (integer labels mixed with their `str()` forms), C16 (DQM energies recorded before/after
 the call and tied to the coefficients in Coq; constraints that leave interacting variables out), C19 (`concatenate` with
 column-permuted partners, every input dumped afterwards; neutral-operand arithmetic `0 + a`, `sum([a])`), C20 (see below).
+Round 4 (60 changes; all generator blind spots, each closed by widening the input class AND by a model / theorem /
+translator for the code path): C02 r4m1 (spin variables that occur only in constraints: CQM objectives over all / some /
+none of the variables; the iteration domain of QM / CQM `spin_to_binary` generated by `translators/vartype_loops.py`,
+`C02_cqm_spin_to_binary_uses_source_loop`, `C02_cqm_spin_to_binary_over_objective_only_refuted`), C06 r4m3 (a bound of
+exactly 0: the `bounds` and `addvar` streams; the existing-label branch of cyqm `add_variable` generated by
+`qm_addvar.py`, `C06_gen_addvar_accepts_iff_compatible`), C07 r4m1 (future-backed sample sets under the
+`sample_ising` / `sample_qubo` mixins: real pending / done Futures, future-likes, result hooks, stacks three deep;
+`sampleset_deferred.py`, `Model/Deferred.v`, `C07_deferred_*`, `C07_mixin_deferred_*`), C08 r4m1 (range labels added
+out of order: the sample is handed to Coq as passed, in any column order; `Model/FeasCy.v` over the raw-state model
+of `cyexpression._energies`, `C08_cy_*`), C09 r4m1 (the legacy CQM file reader: v1.0-1.3 archives written by hand
+and the 14 bundled ones read by a Coq reader; `cqm_legacy_reader.py`, `Model/CqmFile.v`, `legacy_read_archive`;
+C10 `legacy_member_prefix_safe`), C11 r4m2 / r4m3 (deferred sample sets in eight construction modes through every
+route; `.spin` / `.binary` views through the pure-Python `to_numpy_vectors`), C13 r4m1 / r4m2 (slice probes with
+steps of both signs, `C13_slice_*`; relabel keys and targets drawn from the labels currently held, constructors and
+what `_relabel` hands to `iter_safe_relabels` generated by `vars_ctor.py`), C14 r4m2 (aliasing through a shared
+future: every handle, the future's own result object and every returned object in one history, dumped with their
+record-sharing classes; `Model/Alias.v`, `sampleset_hooks.py`, `C14_alias_*`, `C19_sampleset_*`), C15 r4m3
+(`BinaryPolynomial` constructors and exporters: `Model/PolyCtor.v`, `poly_ctors.py`, `C15_from_hubo_*`,
+`C15_ctor_*`; every pipeline kind also fed through `from_hubo` / `from_hising` / iterables / `copy()`), C16 r4m1
+(SPIN equality constraints through views and compiled back-ends; the Python side of the DQM inequality generated by
+`dqm_inequality.py`), C17 r4m1 (the draw calls of the random generators translated by `random_draws.py`,
+`C17_randint_draws_in_range`; every random case re-examined for 16 further seeds), C20 r4m3 (the native adjacency of
+`cyDiscreteQuadraticModel`: `Model/DqmNative.v`, `dqm_native_shapes.py`, stream `py_dqm`, `C20_dqm_*`).
+Round 5: see section 10.7.
 C02 m1 and C11 m1 no longer applied after the repair commits and were re-applied by hand to the repaired code
 (`rebased` in their meta.json). Besides these, every builder planted 3-13 mutants of its own while building
 (about 100 in total, all but a few provably equivalent ones caught), and every check was run against the un-repaired
@@ -211,8 +256,10 @@ out.append("""* The correspondence harness: `check`, `harness/common.py`, `harne
   statement shapes, not whole algorithms): the algorithms of the C++ headers and `.pyx` files, `sampleset.py`,
   `constrained.py`, the LP writer, serialisation. Not modelled at all
   (oracles): IEEE-754 rounding (dyadic exactness instead), NumPy internals (`argsort` tie order, `packbits`),
-  Python `json`/`pickle`/`zipfile`/`npz` beyond the modelled JSON subset, character-level lexing of the C++ LP
-  parser in `extern/filereaderlp` (its token-level behaviour is compared with a verified reference parser), NumPy
+  Python `json`/`pickle`/`zipfile`/`npz` beyond the modelled JSON subset, the section parsers of the C++ LP
+  reader in `extern/filereaderlp` (its tokenizer and keyword stage are modelled at character level in `Model/LPLex.v`;
+  the section parsers are represented by a verified reference parser that is compared with the C++ result on every
+  generated text) and `strtod`'s rounding of numerals that are not doubles, NumPy
   random streams, the stochastic search of RandomSampler/SimulatedAnnealingSampler, the CPython/NumPy heap (C19),
   use-after-free/overflow/allocator behaviour (C20, sanitizer-monitored only).
 
@@ -223,8 +270,67 @@ takes 10-160 s per property; `--tier thorough` uses 15-40x more cases and, for C
 `VERIF_SEED` selects the PRNG seed (all 20 checks were run green for seeds 0-3 in the quick tier and seeds 0-1 in the
 thorough tier; `vp check` uses seed 1). `./check Cxx --replay evidence/replays/<file>` re-runs one recorded case.
 `harness/dbg.py Cxx <case> '<coq expr>'` evaluates model expressions on one case. `harness/seed_eval.py <dir> Cxx`
-validates a seeded change and runs the check against it. Running a check with `VERIF_REPO` pointing at a changed
-tree regenerates `coq/theories/Gen/*.v` from that tree; the next ordinary run regenerates them from /repo.
+validates a seeded change and runs the check against it. A run with `VERIF_REPO` pointing at another tree (development
+aid for seeded changes) works on its own copy of the Coq development under `/var/tmp/dimod-verif-coq/<hash of the tree
+location>` (`harness/common.py:sync_private_coq`, an rsync of `/verif/coq` taken under a lock), so the `Gen/*.v` files its
+translators write from that tree never mix with those of a concurrent run; registered checks always use `/verif/coq`.
+""")
+R5_WHAT = {
+    ('C01', 'r5m1'): "index fix-up of `Expression::remove_variable` reached through an expression view",
+    ('C04', 'r5m1'): "lower bound of a SPIN BQM in the pure-Python path of `QuadraticModel.update`",
+    ('C04', 'r5m3'): "REAL bounds forwarded by `add_variables_from_model`",
+    ('C08', 'r5m1'): "`as_samples` on lists of dicts with differing key orders behind `from_samples_cqm`",
+    ('C09', 'r5m3'): "index dtype of `to_numpy_vectors` for DQMs with 65536 or more cases",
+    ('C11', 'r5m1'): "`deepcopy` of a BQM sharing its label table with the original",
+    ('C11', 'r5m2'): "NumPy numbers inside (nested) tuple labels in `serialize_variable`",
+    ('C11', 'r5m3'): "`data_vectors` on a record whose first field is not `sample`",
+    ('C12', 'r5m1'): "fractional bounds of INTEGER variables truncated by the LP reader glue",
+    ('C12', 'r5m2'): "a further section-keyword spelling in `reader.cpp` that is also an accepted label",
+    ('C14', 'r5m1'): "intermediate labels of `resolve_label_conflict` colliding with relabel targets",
+    ('C14', 'r5m2'): "a `Variables` object kept (shared) by `SampleSet.__init__`",
+    ('C18', 'r5m1'): "`is_equal` against NumPy scalars and Fractions",
+    ('C19', 'r5m3'): "`__getstate__` editing the live `__dict__` (pickle / deepcopy change the original)",
+    ('C20', 'r5m2'): "a rejected `add_quadratic(z, z, b)` with an unknown label leaving the variable behind",
+    ('C20', 'r5m3'): "`reduce_neighborhood` guarded by the model-level `is_linear()`",
+}
+r4 = per_round.get(4, [])
+r5 = per_round.get(5, [])
+r5_missed = [(p, k, m) for p, k, m in r5 if missed_on_arrival(p, k, m)]
+r5_open = [(p, k) for p, k, m in r5 if not caught_now(m)]
+
+
+def r5_item(p, k):
+    w = R5_WHAT.get((p, k))
+    return f"{p} {k}" + (f" ({w})" if w else "")
+
+
+out.append(f"""
+### 10.7 Rounds 4 and 5
+
+Round 4: {len(r4)} further seeded changes by fresh sub-agents (`seeded/<P>/r4m<k>`).
+{sum(1 for p, k, m in r4 if missed_on_arrival(p, k, m))} were missed by the checks as they stood
+({', '.join(p + ' ' + k for p, k, m in r4 if missed_on_arrival(p, k, m))}; for three of them - C11, C13 (load), C17 - a catch had
+been recorded at first that turned out to be an artefact of the infrastructure, not of the change). All were blind
+spots of the GENERATORS, not of the models: variables that occur only in constraints, a bound of exactly 0,
+future-backed sample sets, range labels added out of order, the legacy file reader, aliasing through a shared future,
+polynomial constructors, the DQM's native adjacency. Each was closed twice: by widening the input class so that a
+failing input exists and is replayable, and by a model, theorems and usually a translator for the code path that had not
+been modelled (list per property in section 10.4, 'Round 4'). {sum(1 for p, k, m in r4 if caught_now(m))} of {len(r4)} are recorded as caught now.
+
+Round 5: {len(r5)} further changes (`seeded/<P>/r5m<k>`), {len(r5_missed)} missed on arrival:
+{'; '.join(r5_item(p, k) for p, k, m in r5_missed) or '-'}.
+They are being closed the same way; {len(r5) - len(r5_open)} of {len(r5)} are recorded as caught now"""
+           + (f", still open when this section was generated: {', '.join(p + ' ' + k for p, k in r5_open)}" if r5_open else "") + """.
+
+Lessons kept in the machinery. (1) Every worker docstring carries a clause-by-clause coverage table (clause of the
+property text / entry point / option -> generator stream -> Coq case that decides it, and a 'not reached' list), so a
+blind spot is visible before a seeded change finds it; the rounds 4 and 5 misses were all in rows that were absent
+from, or listed as not reached in, those tables. (2) A catch that rests only on a broken pin (a translator or shape
+lock reporting `no-failing-input-found`) is followed up with an input stream that reaches the changed code, so that a
+replayable failing case exists. (3) A run against a seeded worktree uses a private copy of the Coq tree
+(section 10.6), so that the generated files of concurrent runs never mix. Two further /repo repairs came out of these
+rounds: `0dfb0ff` (`SimulatedAnnealingSampler(num_sweeps=1)` divided by zero when building the beta schedule) and `0fea62d`
+(a deferred `SampleSet.relabel_variables` captured the caller's mapping by reference instead of its value at call time).
 """)
 t = open(os.path.join(ROOT, 'DESIGN.md')).read()
 i = t.find("\n### 10.2 ")
